@@ -38,7 +38,8 @@ def setup():
 OPS = ['finalize', 'unlock_enter', 'unlock_exit_ok', 'unlock_exit_raise', 'bind_x', 'parse_y', 'register', 'clear',
        'register_class_with_method', 'hook_y7', 'hook_y8_other_spelling', 'hook_z', 'hook_invalid', 'hook_raises', 'hook_none', 'hook_empty',
        'parse_unbound_macro', 'parse_placeholder', 'parse_required', 'bind_tuple_x', 'parse_block_z',
-       'define_macro', 'parse_macro_y_evaluated', 'parse_macro_z_unevaluated', 'parse_macro_y_short_ref']
+       'define_macro', 'parse_macro_y_evaluated', 'parse_macro_z_unevaluated', 'parse_macro_y_short_ref',
+       'finalize_in_scope', 'parse_macro_z_dictkey']
 UNIVERSE = ['c12.f.x', 'c12.f.y', 'c12.f.z']
 
 
@@ -174,7 +175,7 @@ class World:
     exp_out = 'ok'
     mutator = False
     try:
-      if op == 'finalize':
+      if op in ('finalize', 'finalize_in_scope'):
         exp_out, new = self.model_finalize()
         if exp_out == 'ok':
           for k, v in new.items():
@@ -183,7 +184,11 @@ class World:
               self.bad.clear()
             self.kinds.pop(k.rsplit('.', 1)[1], None)
           self.locked = True
-        gin.finalize()
+        if op == 'finalize':
+          gin.finalize()
+        else:
+          with gin.config_scope('c12scope'):     # the active scope has no bearing on what finalize validates
+            gin.finalize()
       elif op == 'unlock_enter':
         self.stack.append(self.locked)
         self.locked = False
@@ -203,7 +208,7 @@ class World:
             res.violation('unlock_swallows_exception', 'unlock_config swallowed the body exception; %r' % (hist,), hist)
       elif op in ('bind_x', 'bind_tuple_x', 'parse_y', 'parse_block_z', 'parse_unbound_macro', 'parse_placeholder',
                   'parse_required', 'define_macro', 'parse_macro_y_evaluated', 'parse_macro_z_unevaluated',
-                  'parse_macro_y_short_ref'):
+                  'parse_macro_y_short_ref', 'parse_macro_z_dictkey'):
         mutator = True
         if self.locked:
           exp_out = 'RuntimeError'
@@ -243,6 +248,11 @@ class World:
             self.config['c12.f.z'] = '@nomacro/macro'
             self.kinds['z'] = 'uneval'
           gin.parse_config('c12.f.z = @nomacro/macro')
+        elif op == 'parse_macro_z_dictkey':
+          if not self.locked:
+            self.config['c12.f.z'] = '{%nomacro: 1}'
+            self.kinds['z'] = 'macro'
+          gin.parse_config('c12.f.z = {%nomacro: 1}')      # the macro is the KEY of a dict value
         elif op == 'define_macro':
           if not self.locked:
             self.macro_defined = True
